@@ -286,7 +286,9 @@ func (c *checker) oracleRoundTrip(p *packet, ref *refFrames, frames [][]byte, ad
 			return
 		}
 		if err != nil {
-			if p.isEvent() && strings.HasSuffix(p.Name, `\`) {
+			if early {
+				add("finish callback not called exactly once after the last frame", "finish ran before the last frame, and Add(frame %d) then failed: %v; frames %s", i, err, showFrames(frames))
+			} else if p.isEvent() && strings.HasSuffix(p.Name, `\`) {
 				add("event name ending in backslash not decodable", "Add(frame %d) of the encoder's own frames %s failed: %v", i, showFrames(frames), err)
 			} else {
 				add("Add rejects the encoder's own frames ("+typeName(ref.wire)+")", "Add(frame %d) of %s failed: %v", i, showFrames(frames), err)
@@ -330,11 +332,7 @@ func (c *checker) oracleRoundTrip(p *packet, ref *refFrames, frames [][]byte, ad
 	if p.hasArgs() {
 		nodes = p.Args
 	} else if cn := p.ctlNode(); cn != nil {
-		if cn.K == kMapAny {
-			nodes = []*node{cn} // sent as *map[string]any, received as map[string]any
-		} else {
-			nodes = []*node{cn}
-		}
+		nodes = []*node{cn} // a map payload is sent as *map[string]any and received as map[string]any
 	}
 	types := make([]reflect.Type, len(nodes))
 	for i, n := range nodes {
@@ -342,7 +340,7 @@ func (c *checker) oracleRoundTrip(p *packet, ref *refFrames, frames [][]byte, ad
 	}
 	vals, err, pan := safeDecode(gotDec, types...)
 	if pan != nil {
-		add("decode panics on the encoder's own frames", "decode panicked: %v; frames %s", pan, showFrames(frames))
+		add("decode panics on the encoder's own frames: "+stable(fmt.Sprint(pan)), "decode panicked: %v; frames %s", pan, showFrames(frames))
 		return
 	}
 	if err != nil {
